@@ -217,12 +217,11 @@ fn cli_with_config() -> Cli {
 
     if let Ok(args) = fs::read_to_string(config_file_path) {
         match shell_words::split(&args) {
-            Ok(mut args) => {
-                for (i, arg) in env::args_os().enumerate() {
-                    if let Some(s) = arg.to_str() {
-                        args.insert(i, s.into());
-                    }
-                }
+            Ok(words) => {
+                // The process arguments come first, as they are (they need not
+                // be valid Unicode), followed by the words of the config file.
+                let mut args: Vec<std::ffi::OsString> = env::args_os().collect();
+                args.extend(words.into_iter().map(Into::into));
 
                 Cli::parse_from(args)
             }
